@@ -31,9 +31,9 @@ Non-trivial = the sequence contains a state-changing method aimed at an existing
 #[derive(Clone, Debug, Serialize, Deserialize)]
 pub enum Op {
     Method { method: u8, target: u16, body: u8 },
-    Upload { file: u16 },
-    Initiate { file: u16 },
-    FormPath { file: u16 },
+    Upload { file: u16, #[serde(default)] spell: u8 },
+    Initiate { file: u16, #[serde(default)] spell: u8 },
+    FormPath { file: u16, #[serde(default)] spell: u8 },
     Mutant(Bytes),
 }
 
@@ -64,6 +64,26 @@ pub fn manifest(base: &std::path::Path) -> BTreeMap<String, String> {
 
 fn render(tree: &Tree, op: &Op) -> Vec<u8> {
     let file_url = |i: u16| -> String { if tree.files.is_empty() { "/nothing".into() } else { tree.files[pick_idx(i, tree.files.len())].url.clone() } };
+    // the ways a client-supplied *name* can point at an existing file: relative to the served directory (spell 0), absolute (1), relative to the
+    // system's temporary directory where upload scratch files usually live (2), climbing to the filesystem root with "../" (3), relative to the
+    // served directory's parent (4); the file is one of the tree's files or (odd selector) one of the secrets outside the served directory
+    let named = |i: u16, spell: u8| -> String {
+        let abs: std::path::PathBuf = if i % 2 == 1 && !tree.secrets.is_empty() { tree.secrets[pick_idx(i, tree.secrets.len())].abs.clone() } else { tree.abs(&file_url(i)) };
+        let a = abs.to_string_lossy().to_string();
+        let rel_to = |base: &std::path::Path| -> String {
+            let f: Vec<_> = base.components().collect(); let t: Vec<_> = abs.components().collect();
+            let mut k = 0; while k < f.len() && k < t.len() && f[k] == t[k] { k += 1; }
+            let mut r = std::path::PathBuf::new(); for _ in k..f.len() { r.push(".."); } for c in &t[k..] { r.push(c.as_os_str()); }
+            r.to_string_lossy().to_string()
+        };
+        match spell % 5 {
+            0 => file_url(i).trim_start_matches('/').to_string(),
+            1 => a,
+            2 => rel_to(&std::env::temp_dir()),
+            3 => format!("{}{}", "../".repeat(12), a.trim_start_matches('/')),
+            _ => rel_to(tree.root.parent().unwrap_or(&tree.root)),
+        }
+    };
     match op {
         Op::Mutant(b) => b.0.clone(),
         Op::Method { method, target, body } => {
@@ -76,22 +96,22 @@ fn render(tree: &Tree, op: &Op) -> Vec<u8> {
             let mut v = format!("{} {} HTTP/1.1\r\nHost: localhost\r\nContent-Length: {}\r\nContent-Type: application/octet-stream\r\n\r\n", m, t, b.len()).into_bytes();
             v.extend_from_slice(&b); v
         }
-        Op::Upload { file } => {
-            let name = file_url(*file);
-            let body = format!("--XB\r\nContent-Disposition: form-data; name=\"file\"; filename=\"{}\"\r\nContent-Type: text/plain\r\n\r\nOVERWRITTEN BY UPLOAD\r\n--XB\r\nContent-Disposition: form-data; name=\"path\"\r\n\r\n{}\r\n--XB--\r\n", name.trim_start_matches('/'), name);
+        Op::Upload { file, spell } => {
+            let name = named(*file, *spell);
+            let body = format!("--XB\r\nContent-Disposition: form-data; name=\"file\"; filename=\"{}\"\r\nContent-Type: text/plain\r\n\r\nOVERWRITTEN BY UPLOAD\r\n--XB\r\nContent-Disposition: form-data; name=\"path\"\r\n\r\n{}\r\n--XB--\r\n", name, name);
             format!("POST /form-multipart-enctype-post-method HTTP/1.1\r\nHost: localhost\r\nContent-Type: multipart/form-data; boundary=XB\r\nContent-Length: {}\r\n\r\n{}", body.len(), body).into_bytes()
         }
-        Op::Initiate { file } => format!("POST /file-upload/initiate?name={}&lastModified=1&size=5 HTTP/1.1\r\nHost: localhost\r\n\r\nhello", file_url(*file).trim_start_matches('/')).into_bytes(),
-        Op::FormPath { file } => { let body = format!("path={}&name={}&content=overwrite&delete=true", file_url(*file), file_url(*file).trim_start_matches('/')); format!("POST /form-url-encoded-enctype-post-method HTTP/1.1\r\nContent-Type: application/x-www-form-urlencoded\r\nContent-Length: {}\r\n\r\n{}", body.len(), body).into_bytes() }
+        Op::Initiate { file, spell } => format!("POST /file-upload/initiate?name={}&lastModified=1&size={} HTTP/1.1\r\nHost: localhost\r\n\r\nhello", named(*file, *spell), [5u64, 0, 1, 1 << 40][(*spell / 5) as usize % 4]).into_bytes(),
+        Op::FormPath { file, spell } => { let body = format!("path={}&name={}&content=overwrite&delete=true", named(*file, *spell), named(*file, *spell)); format!("POST /form-url-encoded-enctype-post-method HTTP/1.1\r\nContent-Type: application/x-www-form-urlencoded\r\nContent-Length: {}\r\n\r\n{}", body.len(), body).into_bytes() }
     }
 }
 
 fn op_strategy() -> impl Strategy<Value = Op> {
     prop_oneof![
         6 => (0u8..9, any::<u16>(), 0u8..4).prop_map(|(method, target, body)| Op::Method { method, target, body }),
-        1 => any::<u16>().prop_map(|file| Op::Upload { file }),
-        1 => any::<u16>().prop_map(|file| Op::Initiate { file }),
-        1 => any::<u16>().prop_map(|file| Op::FormPath { file }),
+        1 => (any::<u16>(), 0u8..20).prop_map(|(file, spell)| Op::Upload { file, spell }),
+        2 => (any::<u16>(), 0u8..20).prop_map(|(file, spell)| Op::Initiate { file, spell }),
+        1 => (any::<u16>(), 0u8..20).prop_map(|(file, spell)| Op::FormPath { file, spell }),
         2 => crate::fw::greq::case_strategy().prop_map(|c| Op::Mutant(Bytes(c.render(10000)))),
     ]
 }
